@@ -54,9 +54,9 @@ Proof. apply escaped_path_valid. Qed.
 Lemma rewrite_wire f rw u :
   let raw' := transform_path rw (escaped_path (u_path u) (u_rawpath u)) in
   u_rawpath u <> "" -> valid_encoded raw' = true -> wellformed raw' = true ->
-  wire_path (rewrite_fx f rw u) = raw'.
+  wire_path (rewrite_q f rw u) = raw'.
 Proof.
-  intros raw' Hne Hv Hw. unfold wire_path, rewrite_fx. fold raw'. cbn [u_path u_rawpath].
+  intros raw' Hne Hv Hw. unfold wire_path, rewrite_q. fold raw'. cbn [u_path u_rawpath].
   destruct (wellformed_unescape _ Hw) as [p Hp].
   unfold unescape_or_empty. rewrite Hp.
   assert (Hrp : (if is_empty (u_rawpath u) then u_rawpath u else raw') = raw').
@@ -81,9 +81,9 @@ Qed.
 Lemma rewrite_decoded f rw u :
   let raw' := transform_path rw (escaped_path (u_path u) (u_rawpath u)) in
   wellformed raw' = true ->
-  unescape (wire_path (rewrite_fx f rw u)) = unescape raw'.
+  unescape (wire_path (rewrite_q f rw u)) = unescape raw'.
 Proof.
-  intros raw' Hw. unfold wire_path, rewrite_fx. fold raw'. cbn [u_path u_rawpath].
+  intros raw' Hw. unfold wire_path, rewrite_q. fold raw'. cbn [u_path u_rawpath].
   destruct (wellformed_unescape _ Hw) as [p Hp].
   rewrite escaped_path_decodes. unfold unescape_or_empty. rewrite Hp. reflexivity.
 Qed.
@@ -159,13 +159,13 @@ Lemma create_url_wire_path f b u :
   view_wf u ->
   valid_encoded (match b_rw b with Some rw => rw_add rw | None => "" end) = true ->
   wellformed (match b_rw b with Some rw => rw_add rw | None => "" end) = true ->
-  wire_path (create_url_fx f b u) =
+  wire_path (create_url_q f b u) =
   match b_rw b with
   | Some rw => rw_add rw ++ strip_prefix (rw_cut rw) (u_rawpath u)
   | None => u_rawpath u
   end.
 Proof.
-  intros (Hne & Hv & Hu) Hva Hwa. unfold create_url_fx. destruct (b_rw b) as [rw|].
+  intros (Hne & Hv & Hu) Hva Hwa. unfold create_url_q. destruct (b_rw b) as [rw|].
   - set (up := {| u_scheme := u_scheme u; u_host := b_host b; u_path := u_path u;
                   u_rawpath := u_rawpath u; u_query := u_query u |}).
     assert (He : escaped_path (u_path up) (u_rawpath up) = u_rawpath u).
@@ -189,7 +189,7 @@ Theorem wire_path_exact fx r u t :
   wire_path t = expected_path r u.
 Proof.
   intros Hwf Hon Hva Hwa He. unfold expected_path, original_path, cfg_add, cfg_strip in *.
-  assert (Ht : t = create_url_fx (fx_f1 fx) (r_backend r) u).
+  assert (Ht : t = create_url_q (fx_q fx) (r_backend r) u).
   { unfold execute in He. destruct (r_setting r); try congruence.
     destruct (has_enc_slash (fx_c08f2 fx) (u_rawpath u)); congruence. }
   subst t. rewrite create_url_wire_path by assumption.
@@ -281,14 +281,16 @@ Proof.
   destruct (String.leb (fst c) (fst e)); discriminate.
 Qed.
 
-(** the block at the end of rewriteRequest *)
-Lemma forwarded_block_values q k h :
-  h_values k (forwarded_block (in_headers q) (q_host q) (q_peer q) h) =
-  match forwarding_value q k with Some v => [v] | None => h_values k h end.
+(** the forwarded-header block of rewriteRequest *)
+Lemma forwarded_block_values al q k h :
+  h_values k (forwarded_block al (q_tls q) (in_headers q) (q_host q) (q_peer q) h) =
+  match forwarding_value al q k with Some v => [v] | None => h_values k h end.
 Proof.
-  unfold forwarded_block, forwarding_value, forwarding_active, append_peer, forwarded_element.
-  set (hin := in_headers q).
-  destruct (negb (is_empty (h_get "X-Forwarded-For" hin)) || negb (is_empty (h_get "X-Forwarded-Proto" hin)) ||
+  unfold forwarded_block, forwarding_value, forwarding_active, chain, append_peer, forwarded_element, conn_proto.
+  set (hin := in_headers q). cbv zeta.
+  set (ffor := if al then h_joined "X-Forwarded-For" hin else h_get "X-Forwarded-For" hin).
+  set (fwd := if al then h_joined "Forwarded" hin else h_get "Forwarded" hin).
+  destruct (negb (is_empty ffor) || negb (is_empty (h_get "X-Forwarded-Proto" hin)) ||
             negb (is_empty (h_get "X-Forwarded-Host" hin))).
   - rewrite !h_values_set.
     destruct (String.eqb k "X-Forwarded-For") eqn:E1.
@@ -304,10 +306,10 @@ Proof.
     apply String.eqb_eq in E. subst k. reflexivity.
 Qed.
 
-Lemma forwarding_value_name q k v : forwarding_value q k = Some v -> is_forwarding_name k = true.
+Lemma forwarding_value_name al q k v : forwarding_value al q k = Some v -> is_forwarding_name k = true.
 Proof.
   unfold forwarding_value, is_forwarding_name, mem_str. simpl.
-  destruct (forwarding_active (in_headers q)).
+  destruct (forwarding_active al (in_headers q)).
   - destruct (String.eqb k "X-Forwarded-For"); [intros _; rewrite !orb_true_r; reflexivity|].
     destruct (String.eqb k "X-Forwarded-Proto"); [intros _; rewrite !orb_true_r; reflexivity|].
     destruct (String.eqb k "X-Forwarded-Host"); [intros _; rewrite !orb_true_r; reflexivity|]. discriminate.
@@ -318,17 +320,17 @@ Qed.
     specification says; who has the last word on a forwarding header the pipeline
     itself produced depends on the order of the two blocks (C15-F4) *)
 Theorem rewrite_request_values fx q pl th k : k <> "Host" ->
-  h_values k (snd (rewrite_request fx q pl th)) = handed_over (fx_c13f3 fx) (fx_f4 fx) q pl k.
+  h_values k (snd (rewrite_request fx q pl th)) = handed_over (fx_c13f3 fx) (fx_f4 fx) (fx_f7 fx) q pl k.
 Proof.
   intro Hk. unfold rewrite_request. cbv zeta. cbn [snd].
   set (pvs := pipeline_values (fx_c13f3 fx) (p_headers pl)).
   set (h1 := h_del_all ["X-Forwarded-Method"; "X-Forwarded-Uri"; "X-Forwarded-Path"]
                (strip_forwarding (remove_hop_by_hop (in_headers q)))).
-  set (h1' := if fx_f4 fx then forwarded_block (in_headers q) (q_host q) (q_peer q) h1 else h1).
+  set (h1' := if fx_f4 fx then forwarded_block (fx_f7 fx) (q_tls q) (in_headers q) (q_host q) (q_peer q) h1 else h1).
   set (h2 := set_pipeline_headers (fx_c13f3 fx) (upstream_headers pl) h1').
   set (h3 := if is_empty (h_get "Host" (upstream_headers pl)) then h2 else h_del "Host" h2).
   assert (H1' : forall k', h_values k' h1' =
-                if fx_f4 fx then match forwarding_value q k' with Some v => [v] | None => passed_on (in_headers q) k' end
+                if fx_f4 fx then match forwarding_value (fx_f7 fx) q k' with Some v => [v] | None => passed_on (in_headers q) k' end
                 else passed_on (in_headers q) k').
   { intro k'. unfold h1'. destruct (fx_f4 fx).
     - rewrite forwarded_block_values. unfold h1. rewrite passed_on_values. reflexivity.
@@ -354,16 +356,16 @@ Proof.
         rewrite join_cookies_fold by discriminate. rewrite h_get_values. reflexivity.
     - simpl andb. cbv iota. apply h_values_add_cookies_other. rewrite str_eqb_sym. exact Ec. }
   unfold handed_over. fold pvs.
-  destruct (forwarding_value q k) as [fv|] eqn:Ef.
+  destruct (forwarding_value (fx_f7 fx) q k) as [fv|] eqn:Ef.
   - (* a forwarding name: not Cookie *)
-    pose proof (forwarding_value_name _ _ _ Ef) as Hn.
+    pose proof (forwarding_value_name _ _ _ _ Ef) as Hn.
     assert (Hc : String.eqb k "Cookie" = false).
     { destruct (String.eqb k "Cookie") eqn:E; [|reflexivity]. apply String.eqb_eq in E. subst k. discriminate. }
     rewrite Hc in *. cbn [andb] in *. destruct (fx_f4 fx) eqn:E4.
     + rewrite H4, H3 by exact Hk. rewrite H1', Ef. cbn [andb]. destruct (is_nil (pvs k)); reflexivity.
     + rewrite forwarded_block_values, Ef. reflexivity.
   - assert (Hend : h_values k (if fx_f4 fx then fold_left add_cookie (sort_cookies (p_cookies pl)) h3
-                               else forwarded_block (in_headers q) (q_host q) (q_peer q)
+                               else forwarded_block (fx_f7 fx) (q_tls q) (in_headers q) (q_host q) (q_peer q)
                                       (fold_left add_cookie (sort_cookies (p_cookies pl)) h3)) =
                    h_values k (fold_left add_cookie (sort_cookies (p_cookies pl)) h3)).
     { destruct (fx_f4 fx); [reflexivity|]. rewrite forwarded_block_values, Ef. reflexivity. }
@@ -380,7 +382,7 @@ Lemma on_the_wire_values m h k : k <> "Host" ->
   else if String.eqb k "Accept-Encoding" then
     (if is_empty (first_or_empty (h_values "Accept-Encoding" h)) && is_empty (first_or_empty (h_values "Range" h)) &&
         negb (String.eqb m "HEAD")
-     then ["gzip"] else h_values k h)
+     then (h_values k h ++ ["gzip"])%list else h_values k h)
   else h_values k h.
 Proof.
   intro Hk. unfold on_the_wire.
@@ -407,13 +409,15 @@ Proof.
   - apply String.eqb_eq in Eu. subst k.
     destruct (is_empty (first_or_empty (h_values "Accept-Encoding" h)) &&
               is_empty (first_or_empty (h_values "Range" h)) && negb (String.eqb m "HEAD")).
-    + rewrite h_values_set. simpl String.eqb. cbv iota. rewrite H2 by discriminate. simpl String.eqb. cbv iota.
+    + rewrite h_values_add. simpl String.eqb. cbv iota. rewrite H2 by discriminate. simpl String.eqb. cbv iota.
       rewrite Hua. reflexivity.
     + rewrite H2 by discriminate. simpl String.eqb. cbv iota. rewrite Hua. reflexivity.
   - destruct (is_empty (first_or_empty (h_values "Accept-Encoding" h)) &&
               is_empty (first_or_empty (h_values "Range" h)) && negb (String.eqb m "HEAD")).
-    + rewrite h_values_set, (str_eqb_sym "Accept-Encoding" k).
-      destruct (String.eqb k "Accept-Encoding"); [reflexivity|]. rewrite H2 by exact Hk. rewrite Eu. reflexivity.
+    + rewrite h_values_add, (str_eqb_sym "Accept-Encoding" k).
+      destruct (String.eqb k "Accept-Encoding") eqn:Ea.
+      * apply String.eqb_eq in Ea. subst k. rewrite H2 by discriminate. reflexivity.
+      * rewrite H2 by exact Hk. rewrite Eu. reflexivity.
     + rewrite H2 by exact Hk. rewrite Eu. destruct (String.eqb k "Accept-Encoding"); reflexivity.
 Qed.
 
@@ -446,7 +450,7 @@ Qed.
 (** every field the upstream sees, name by name *)
 Theorem serve_headers fx q pl r tls m uri host hs body k :
   serve fx q pl r = Forwarded tls m uri host hs body -> k <> "Host" ->
-  h_values k hs = expected_values (fx_c13f3 fx) (fx_f4 fx) q pl m k.
+  h_values k hs = expected_values (fx_c13f3 fx) (fx_f4 fx) (fx_f7 fx) q pl m k.
 Proof.
   intros H Hk. destruct (serve_forwarded _ _ _ _ _ _ _ _ _ _ H) as (u & t & _ & _ & _ & _ & _ & Hm & _ & _ & Hhs & _).
   subst hs. rewrite h_values_sort by (apply nodup_on_the_wire; apply nodup_rewrite_request).
@@ -461,8 +465,8 @@ Proof.
   subst host. unfold rewrite_request. cbv zeta. cbn [fst]. rewrite upstream_host. unfold expected_host.
   assert (Ht : u_host t = b_host (r_backend r)).
   { unfold execute in He.
-    assert (Hc : forall x, u_host (create_url_fx (fx_f1 fx) (r_backend r) x) = b_host (r_backend r)).
-    { intro x. unfold create_url_fx. destruct (b_rw (r_backend r)); reflexivity. }
+    assert (Hc : forall x, u_host (create_url_q (fx_q fx) (r_backend r) x) = b_host (r_backend r)).
+    { intro x. unfold create_url_q. destruct (b_rw (r_backend r)); reflexivity. }
     destruct (r_setting r); try (inversion He; apply Hc).
     destruct (has_enc_slash (fx_c08f2 fx) (u_rawpath u)); [discriminate|]. inversion He. apply Hc. }
   rewrite Ht. destruct (pipeline_value (p_headers pl) "Host"); reflexivity.
@@ -470,42 +474,50 @@ Qed.
 
 (** * the sentences about headers *)
 
-Lemma handed_over_pipeline all pf q pl k :
-  pipeline_values all (p_headers pl) k <> [] -> pf = true \/ forwarding_value q k = None ->
+Lemma handed_over_pipeline all pf al q pl k :
+  pipeline_values all (p_headers pl) k <> [] -> pf = true \/ forwarding_value al q k = None ->
   (k = "Cookie" -> p_cookies pl = []) ->
-  handed_over all pf q pl k = pipeline_values all (p_headers pl) k.
+  handed_over all pf al q pl k = pipeline_values all (p_headers pl) k.
 Proof.
   intros Hp Hf Hc. unfold handed_over.
   assert (Hn : is_nil (pipeline_values all (p_headers pl) k) = false).
   { destruct (pipeline_values all (p_headers pl) k); [congruence | reflexivity]. }
   rewrite Hn.
-  assert (Hb : match forwarding_value q k with
+  assert (Hb : match forwarding_value al q k with
                | Some v => if pf && negb false then pipeline_values all (p_headers pl) k else [v]
                | None => pipeline_values all (p_headers pl) k
                end = pipeline_values all (p_headers pl) k).
-  { destruct Hf as [Hf|Hf]; rewrite Hf; [destruct (forwarding_value q k)|]; reflexivity. }
+  { destruct Hf as [Hf|Hf]; rewrite Hf; [destruct (forwarding_value al q k)|]; reflexivity. }
   rewrite Hb. destruct (String.eqb k "Cookie") eqn:E; [|reflexivity].
   apply String.eqb_eq in E. rewrite (Hc E). reflexivity.
 Qed.
 
 (** "every header produced by the pipeline replaces any same-named header sent
-    by the client": the upstream sees exactly the pipeline's values for that name *)
-Theorem pipeline_header_wins fx q pl r tls m uri host hs body k :
+    by the client": heimdall hands its HTTP client exactly the pipeline's values
+    for that name — empty values included — whatever the client sent under it in
+    whatever casing *)
+Theorem pipeline_header_wins fx q pl th k :
+  let vs := pipeline_values (fx_c13f3 fx) (p_headers pl) k in
+  vs <> [] -> k <> "Host" -> (k = "Cookie" -> p_cookies pl = []) ->
+  fx_f4 fx = true \/ forwarding_value (fx_f7 fx) q k = None ->
+  h_values k (snd (rewrite_request fx q pl th)) = vs.
+Proof.
+  intros vs Hne Hk Hc Hf. rewrite rewrite_request_values by exact Hk.
+  apply handed_over_pipeline; assumption.
+Qed.
+
+(** ... and the upstream sees exactly these (User-Agent and Accept-Encoding are
+    written by Go's HTTP client in its own way, see [expected_values]) *)
+Theorem pipeline_header_on_the_wire fx q pl r tls m uri host hs body k :
   serve fx q pl r = Forwarded tls m uri host hs body ->
   let vs := pipeline_values (fx_c13f3 fx) (p_headers pl) k in
-  first_or_empty vs <> "" ->
-  k <> "Host" -> k <> "User-Agent" -> (k = "Cookie" -> p_cookies pl = []) ->
-  fx_f4 fx = true \/ forwarding_value q k = None ->
+  vs <> [] -> k <> "Host" -> k <> "User-Agent" -> k <> "Accept-Encoding" -> (k = "Cookie" -> p_cookies pl = []) ->
+  fx_f4 fx = true \/ forwarding_value (fx_f7 fx) q k = None ->
   h_values k hs = vs.
 Proof.
-  intros H vs Hv Hk Hua Hc Hf. rewrite (serve_headers _ _ _ _ _ _ _ _ _ _ k H Hk).
-  assert (Hne : vs <> []) by (intro E; rewrite E in Hv; apply Hv; reflexivity).
-  unfold expected_values. rewrite (handed_over_pipeline _ _ q pl k Hne Hf Hc). fold vs.
-  assert (He : is_empty (first_or_empty vs) = false) by (destruct (first_or_empty vs); [congruence | reflexivity]).
-  rewrite (str_eqb_neq k "User-Agent") by exact Hua.
-  destruct (String.eqb k "Accept-Encoding") eqn:Ea; [|reflexivity].
-  apply String.eqb_eq in Ea. subst k. rewrite (handed_over_pipeline _ _ q pl _ Hne Hf Hc). fold vs.
-  rewrite He. reflexivity.
+  intros H vs Hne Hk Hua Hae Hc Hf. rewrite (serve_headers _ _ _ _ _ _ _ _ _ _ k H Hk).
+  unfold expected_values. rewrite (str_eqb_neq k "User-Agent") by exact Hua.
+  rewrite (str_eqb_neq k "Accept-Encoding") by exact Hae. apply handed_over_pipeline; assumption.
 Qed.
 
 (** the pipeline's Host header becomes the Host of the forwarded request *)
@@ -526,8 +538,8 @@ Proof.
   intros H Hn Hp.
   assert (Hk : k <> "Host") by (intro; subst k; discriminate).
   rewrite (serve_headers _ _ _ _ _ _ _ _ _ _ k H Hk).
-  assert (Hf : forwarding_value q k = None).
-  { destruct (forwarding_value q k) eqn:E; [|reflexivity]. apply forwarding_value_name in E.
+  assert (Hf : forwarding_value (fx_f7 fx) q k = None).
+  { destruct (forwarding_value (fx_f7 fx) q k) eqn:E; [|reflexivity]. apply forwarding_value_name in E.
     unfold never_passed, is_forwarding_name, mem_str in *. simpl in *.
     destruct (String.eqb k "X-Forwarded-Method") eqn:E1; [apply String.eqb_eq in E1; subst k; discriminate|].
     destruct (String.eqb k "X-Forwarded-Uri") eqn:E2; [apply String.eqb_eq in E2; subst k; discriminate|].
@@ -536,7 +548,7 @@ Proof.
   assert (Hpv : pipeline_values (fx_c13f3 fx) (p_headers pl) k = []).
   { unfold pipeline_values. rewrite pipeline_value_lines in Hp. rewrite pipeline_value_lines.
     destruct (line_values k (p_headers pl)); [destruct (fx_c13f3 fx); reflexivity | discriminate]. }
-  assert (Hho : handed_over (fx_c13f3 fx) (fx_f4 fx) q pl k = []).
+  assert (Hho : handed_over (fx_c13f3 fx) (fx_f4 fx) (fx_f7 fx) q pl k = []).
   { unfold handed_over. rewrite Hpv, Hf. unfold passed_on. rewrite Hn. simpl.
     destruct (String.eqb k "Cookie") eqn:E; [|reflexivity]. apply String.eqb_eq in E. subst k. discriminate. }
   unfold expected_values. rewrite Hho.
@@ -546,29 +558,32 @@ Proof.
 Qed.
 
 (** "X-Forwarded-For or Forwarded is extended by the peer address": whichever of
-    the two carries this request's forwarding information ends with the peer
-    (with the repair of C15-F4: unless the pipeline itself produced that header) *)
+    the two carries this request's forwarding information is the received chain
+    ([chain]: all field lines after the repair of C15-F7, the first line before)
+    extended by the peer (after the repair of C15-F4: unless the pipeline itself
+    produced that header) *)
 Theorem forwarded_extended_by_peer fx q pl r tls m uri host hs body :
   serve fx q pl r = Forwarded tls m uri host hs body ->
   let hin := in_headers q in
-  let k := if forwarding_active hin then "X-Forwarded-For" else "Forwarded" in
+  let al := fx_f7 fx in
+  let k := if forwarding_active al hin then "X-Forwarded-For" else "Forwarded" in
   fx_f4 fx = false \/ pipeline_values (fx_c13f3 fx) (p_headers pl) k = [] ->
-  if forwarding_active hin
-  then h_values "X-Forwarded-For" hs = [append_peer (h_get "X-Forwarded-For" hin) (q_peer q)]
+  if forwarding_active al hin
+  then h_values "X-Forwarded-For" hs = [append_peer (chain al "X-Forwarded-For" hin) (q_peer q)]
   else h_values "Forwarded" hs =
-       [append_peer (h_get "Forwarded" hin) ("for=" ++ q_peer q ++ ";host=" ++ q_host q ++ ";proto=http")].
+       [append_peer (chain al "Forwarded" hin) ("for=" ++ q_peer q ++ ";host=" ++ q_host q ++ ";proto=" ++ conn_proto q)].
 Proof.
-  intros H hin k Hor. subst k. destruct (forwarding_active hin) eqn:Ea.
+  intros H hin al k Hor. subst k. destruct (forwarding_active al hin) eqn:Ea.
   - rewrite (serve_headers _ _ _ _ _ _ _ _ _ _ "X-Forwarded-For" H) by discriminate.
-    unfold expected_values, handed_over, forwarding_value. fold hin. rewrite Ea. cbn [String.eqb Ascii.eqb Bool.eqb andb].
+    unfold expected_values, handed_over, forwarding_value. fold hin. fold al. rewrite Ea. cbn [String.eqb Ascii.eqb Bool.eqb andb].
     destruct Hor as [Hor|Hor]; rewrite Hor; cbn [andb is_nil negb]; rewrite ?andb_false_r; reflexivity.
   - rewrite (serve_headers _ _ _ _ _ _ _ _ _ _ "Forwarded" H) by discriminate.
-    unfold expected_values, handed_over, forwarding_value. fold hin. rewrite Ea. cbn [String.eqb Ascii.eqb Bool.eqb andb].
+    unfold expected_values, handed_over, forwarding_value. fold hin. fold al. rewrite Ea. cbn [String.eqb Ascii.eqb Bool.eqb andb].
     destruct Hor as [Hor|Hor]; rewrite Hor; cbn [andb is_nil negb]; rewrite ?andb_false_r; reflexivity.
 Qed.
 
-(** "leaving method and body untouched" *)
-Theorem method_body_untouched fx q pl r tls m uri host hs body :
+(** the forwarded method is the view's; it is the received one unless C15-F2 *)
+Lemma method_body_untouched fx q pl r tls m uri host hs body :
   serve fx q pl r = Forwarded tls m uri host hs body ->
   body = q_body q /\ m = view_method q /\ (guard_F2 q = false -> m = q_method q).
 Proof.
@@ -583,11 +598,11 @@ Theorem decoded_path_preserved f b u :
   match b_rw b with
   | Some rw =>
     let raw' := rw_add rw ++ strip_prefix (rw_cut rw) (escaped_path (u_path u) (u_rawpath u)) in
-    wellformed raw' = true -> unescape (wire_path (create_url_fx f b u)) = unescape raw'
-  | None => unescape (wire_path (create_url_fx f b u)) = Some (u_path u)
+    wellformed raw' = true -> unescape (wire_path (create_url_q f b u)) = unescape raw'
+  | None => unescape (wire_path (create_url_q f b u)) = Some (u_path u)
   end.
 Proof.
-  unfold create_url_fx. destruct (b_rw b) as [rw|].
+  unfold create_url_q. destruct (b_rw b) as [rw|].
   - cbv zeta. intro Hw.
     set (up := {| u_scheme := u_scheme u; u_host := b_host b; u_path := u_path u;
                   u_rawpath := u_rawpath u; u_query := u_query u |}).
@@ -599,17 +614,17 @@ Qed.
 (** * the request line *)
 
 Lemma create_url_query f b u :
-  u_query (create_url_fx f b u) =
-  match b_rw b with Some rw => remove_from_fx f (rw_strip_q rw) (u_query u) | None => u_query u end.
-Proof. unfold create_url_fx. destruct (b_rw b); reflexivity. Qed.
+  u_query (create_url_q f b u) =
+  match b_rw b with Some rw => remove_from_q f (rw_strip_q rw) (u_query u) | None => u_query u end.
+Proof. unfold create_url_q. destruct (b_rw b); reflexivity. Qed.
 
 Lemma create_url_scheme f b u :
-  u_scheme (create_url_fx f b u) =
+  u_scheme (create_url_q f b u) =
   match b_rw b with Some rw => if is_empty (rw_scheme rw) then u_scheme u else rw_scheme rw | None => u_scheme u end.
-Proof. unfold create_url_fx. destruct (b_rw b); reflexivity. Qed.
+Proof. unfold create_url_q. destruct (b_rw b); reflexivity. Qed.
 
 Lemma execute_create fx r u t : execute fx r u = Some t ->
-  exists u', t = create_url_fx (fx_f1 fx) (r_backend r) u' /\ u_query u' = u_query u /\ u_scheme u' = u_scheme u /\
+  exists u', t = create_url_q (fx_q fx) (r_backend r) u' /\ u_query u' = u_query u /\ u_scheme u' = u_scheme u /\
              u_path u' = u_path u /\
              u_rawpath u' = match r_setting r with On => "" | _ => u_rawpath u end.
 Proof.
@@ -633,7 +648,7 @@ Theorem request_line fx r u t : execute fx r u = Some t ->
   wire_uri t =
   (if is_empty (wire_path t) then "/" else wire_path t) ++
   (let q' := match b_rw (r_backend r) with
-             | Some rw => remove_from_fx (fx_f1 fx) (rw_strip_q rw) (u_query u)
+             | Some rw => remove_from_q (fx_q fx) (rw_strip_q rw) (u_query u)
              | None => u_query u
              end in
    if is_empty q' then "" else String "?" q').
@@ -641,14 +656,14 @@ Proof.
   intro H. destruct (execute_create _ _ _ _ H) as (u' & Ht & Hq & _). subst t.
   unfold wire_uri, request_uri, wire_path. rewrite create_url_query, Hq.
   destruct (b_rw (r_backend r)) as [rw|].
-  - destruct (is_empty (remove_from_fx (fx_f1 fx) (rw_strip_q rw) (u_query u))); [rewrite append_nil_r|]; reflexivity.
+  - destruct (is_empty (remove_from_q (fx_q fx) (rw_strip_q rw) (u_query u))); [rewrite append_nil_r|]; reflexivity.
   - destruct (is_empty (u_query u)); [rewrite append_nil_r|]; reflexivity.
 Qed.
 
 (** with nothing to remove the query is forwarded byte for byte *)
-Theorem query_untouched f names q : names = [] \/ q = "" -> remove_from_fx f names q = q.
+Theorem query_untouched f names q : names = [] \/ q = "" -> remove_from_q f names q = q.
 Proof.
-  intros [H|H]; subst; unfold remove_from_fx.
+  intros [H|H]; subst; unfold remove_from_q.
   - destruct (is_empty q); reflexivity.
   - reflexivity.
 Qed.
@@ -657,9 +672,9 @@ Qed.
 
 Definition ex_req (m raw q : string) (hs : list (string * string)) (trusted : bool) : request :=
   {| q_method := m; q_raw := raw; q_query := q; q_host := "h.example.com"; q_headers := hs; q_body := "body";
-     q_peer := "127.0.0.2"; q_trusted := trusted; q_xfu := None |}.
+     q_tls := false; q_peer := "127.0.0.2"; q_trusted := trusted; q_xfu := None |}.
 Definition ex_rule (st : setting) (rw : option rewriter) : rule :=
-  {| r_setting := st; r_backend := {| b_host := "up:8080"; b_rw := rw |}; r_up_tls := false |}.
+  {| r_setting := st; r_backend := {| b_host := "up:8080"; b_rw := rw |}; r_up_tls := false; r_tracing := false |}.
 Definition ex_rw (cut add : string) (strip : list string) : option rewriter :=
   Some {| rw_scheme := ""; rw_cut := cut; rw_add := add; rw_strip_q := strip |}.
 Definition no_pl : pipeline := {| p_headers := []; p_cookies := [] |}.
@@ -671,7 +686,7 @@ Definition forwarded_method (o : outcome) : string :=
 Definition forwarded_field (k : string) (o : outcome) : list string :=
   match o with Forwarded _ _ _ _ hs _ => h_values k hs | NotForwarded _ => [] end.
 
-(** C15-F1: `a` is to be removed, the query has a broken escape elsewhere: `a` reaches the upstream *)
+(** C15-F1 (repaired by 41fd1db): `a` is to be removed, the query has a broken escape elsewhere *)
 Theorem F1_pinned_refuted : exists q pl r,
   guard_F1 q r = true /\ spec_ok q pl r (serve current q pl r) = false /\
   forwarded_uri (serve current q pl r) = "/x?a=1&b=%zz" /\
@@ -683,8 +698,8 @@ Qed.
 
 (** C15-F2: PROPFIND arrives from a trusted peer with X-Forwarded-Method: GET; GET is forwarded *)
 Theorem F2_refuted : exists q pl r,
-  guard_F2 q = true /\ spec_ok q pl r (serve repaired q pl r) = false /\
-  q_method q = "PROPFIND" /\ forwarded_method (serve repaired q pl r) = "GET".
+  guard_F2 q = true /\ spec_ok q pl r (serve repaired2 q pl r) = false /\
+  q_method q = "PROPFIND" /\ forwarded_method (serve repaired2 q pl r) = "GET".
 Proof.
   exists (ex_req "PROPFIND" "/x" "" [("X-Forwarded-Method", "GET")] true), no_pl, (ex_rule Off None).
   vm_compute. splits; reflexivity.
@@ -692,14 +707,14 @@ Qed.
 
 (** C15-F3: under `on` an encoded semicolon is decoded on the way *)
 Theorem F3_refuted : exists q pl r,
-  guard_F3 q r = true /\ spec_ok q pl r (serve repaired q pl r) = false /\
-  forwarded_uri (serve repaired q pl r) = "/0%20/;users".
+  guard_F3 q r = true /\ spec_ok q pl r (serve repaired2 q pl r) = false /\
+  forwarded_uri (serve repaired2 q pl r) = "/0%20/;users".
 Proof.
   exists (ex_req "GET" "/0%20/%3Busers" "" [] false), no_pl, (ex_rule On None).
   vm_compute. splits; reflexivity.
 Qed.
 
-(** C15-F4: the pipeline's Forwarded header is overwritten *)
+(** C15-F4 (repaired by 35453b2): the pipeline's Forwarded header is overwritten *)
 Theorem F4_pinned_refuted : exists q pl r,
   guard_F4 q pl = true /\ spec_ok q pl r (serve current q pl r) = false /\
   forwarded_field "Forwarded" (serve current q pl r) = ["for=127.0.0.2;host=h.example.com;proto=http"] /\
@@ -711,10 +726,10 @@ Qed.
 
 (** C15-F5: a prefix with a blank re-encodes the whole path; one with a broken escape sends everything to / *)
 Theorem F5_refuted :
-  (exists q pl r, guard_F5 r = true /\ spec_ok q pl r (serve repaired q pl r) = false /\
-                  forwarded_uri (serve repaired q pl r) = "/a%20b/x;y") /\
-  (exists q pl r, guard_F5 r = true /\ spec_ok q pl r (serve repaired q pl r) = false /\
-                  forwarded_uri (serve repaired q pl r) = "/").
+  (exists q pl r, guard_F5 r = true /\ spec_ok q pl r (serve repaired2 q pl r) = false /\
+                  forwarded_uri (serve repaired2 q pl r) = "/a%20b/x;y") /\
+  (exists q pl r, guard_F5 r = true /\ spec_ok q pl r (serve repaired2 q pl r) = false /\
+                  forwarded_uri (serve repaired2 q pl r) = "/").
 Proof.
   split.
   - exists (ex_req "GET" "/x%3By" "" [] false), no_pl, (ex_rule NoDecode (ex_rw "" "/a b" [])).
@@ -723,28 +738,72 @@ Proof.
     vm_compute. splits; reflexivity.
 Qed.
 
+(** C15-F6: nothing named `zz` is in the query, yet the query is re-ordered and re-encoded;
+    with fixes/C15-F6.diff it is forwarded as it came *)
+Theorem F6_refuted : exists q pl r,
+  guard_F6 q r = true /\ spec_ok q pl r (serve repaired q pl r) = false /\
+  forwarded_uri (serve repaired q pl r) = "/x?a=~&b=1" /\
+  spec_ok q pl r (serve repaired2 q pl r) = true /\ forwarded_uri (serve repaired2 q pl r) = "/x?b=1&a=%7E".
+Proof.
+  exists (ex_req "GET" "/x" "b=1&a=%7E" [] false), no_pl, (ex_rule NoDecode (ex_rw "" "" ["zz"])).
+  vm_compute. splits; reflexivity.
+Qed.
+
+(** C15-F7: a trusted peer sends its chain in two X-Forwarded-For lines; the second is lost;
+    with fixes/C15-F7.diff both are kept *)
+Theorem F7_refuted : exists q pl r,
+  guard_F7 q = true /\ spec_ok q pl r (serve repaired q pl r) = false /\
+  forwarded_field "X-Forwarded-For" (serve repaired q pl r) = ["10.0.0.1, 127.0.0.2"] /\
+  spec_ok q pl r (serve repaired2 q pl r) = true /\
+  forwarded_field "X-Forwarded-For" (serve repaired2 q pl r) = ["10.0.0.1, 10.0.0.2, 127.0.0.2"].
+Proof.
+  exists (ex_req "GET" "/x" "" [("X-Forwarded-For", "10.0.0.1"); ("X-Forwarded-For", "10.0.0.2")] true), no_pl, (ex_rule Off None).
+  vm_compute. splits; reflexivity.
+Qed.
+
+(** C15-F8 is outside the model (the OpenTelemetry transport wrapper is not
+    modelled): the observation below is what the assembled application with
+    tracing enabled forwarded when the header finalizer had set Traceparent *)
+Theorem F8_observed_refuted : exists q pl r o,
+  guard_F8 pl r = true /\ spec_ok q pl r o = false /\
+  line_values "Traceparent" (p_headers pl) = ["from-pipeline"] /\
+  forwarded_field "Traceparent" o = ["00-0af7651916cd43dd8448eb211c80319c-d2ed1e541ae0a01b-01"].
+Proof.
+  exists (ex_req "GET" "/x" "" [] false), {| p_headers := [("Traceparent", "from-pipeline")]; p_cookies := [] |},
+         {| r_setting := Off; r_backend := {| b_host := "up:8080"; b_rw := None |}; r_up_tls := false; r_tracing := true |},
+         (Forwarded false "GET" "/x" "up:8080"
+            [("Accept-Encoding", ["gzip"]); ("Forwarded", ["for=127.0.0.2;host=h.example.com;proto=http"]);
+             ("Traceparent", ["00-0af7651916cd43dd8448eb211c80319c-d2ed1e541ae0a01b-01"])] "body").
+  vm_compute. splits; reflexivity.
+Qed.
+
 (** a request that exercises every sentence and none of the guards: escapes of
     reserved and unreserved bytes, an encoded slash, strip + add prefix, a
-    repeated query parameter to remove, a client header colliding with a pipeline
-    header in another casing, forwarded headers of an untrusted client, cookies *)
+    repeated query parameter to remove, client headers colliding with pipeline
+    headers in another casing (one of them set to the EMPTY value by the
+    pipeline), forwarded headers of an untrusted client, cookies, TLS towards heimdall *)
 Definition nv_req : request :=
-  {| q_method := "POST"; q_raw := "/api/v1%2Fx/%3Bq%41"; q_query := "a=1&b=%2F&a=3&c";
+  {| q_method := "POST"; q_raw := "/api/v1%2Fx/%3Bq%41"; q_query := "a=1&b=%2F&a=3&c=";
      q_host := "h.example.com";
      q_headers := [("X-USER", "mallory"); ("x-forwarded-method", "DELETE"); ("X-Forwarded-For", "6.6.6.6");
-                   ("Cookie", "c=1"); ("connection", "close, X-Drop"); ("X-Drop", "1"); ("Accept", "*/*")];
-     q_body := "{""a"":1}"; q_peer := "127.0.0.9"; q_trusted := false; q_xfu := None |}.
+                   ("Cookie", "c=1"); ("connection", "close, X-Drop"); ("X-Drop", "1"); ("Accept", "*/*");
+                   ("X-Role", "admin")];
+     q_body := "{""a"":1}"; q_tls := true; q_peer := "127.0.0.9"; q_trusted := false; q_xfu := None |}.
 Definition nv_pl : pipeline :=
-  {| p_headers := [("x-user", "alice"); ("Authorization", "Bearer t"); ("X-User", "second")];
+  {| p_headers := [("x-user", "alice"); ("Authorization", "Bearer t"); ("X-User", "second"); ("x-role", "")];
      p_cookies := [("sid", "1")] |}.
-Definition nv_rule : rule := ex_rule NoDecode (ex_rw "/api" "/up" ["a"]).
+Definition nv_rule : rule :=
+  {| r_setting := NoDecode; r_backend := {| b_host := "up:8080"; b_rw := ex_rw "/api" "/up" ["a"] |};
+     r_up_tls := true; r_tracing := false |}.
 
 Example nonvacuous :
   oracle_ok nv_req = true /\
   guard_F2 nv_req = false /\ guard_F3 nv_req nv_rule = false /\ guard_F5 nv_rule = false /\
+  guard_F6 nv_req nv_rule = false /\ guard_F7 nv_req = false /\ guard_F8 nv_pl nv_rule = false /\
   serve repaired nv_req nv_pl nv_rule =
-    Forwarded false "POST" "/up/v1%2Fx/%3Bq%41?b=%2F&c=" "up:8080"
+    Forwarded true "POST" "/up/v1%2Fx/%3Bq%41?b=%2F&c=" "up:8080"
       [("Accept", ["*/*"]); ("Accept-Encoding", ["gzip"]); ("Authorization", ["Bearer t"]);
-       ("Cookie", ["c=1; sid=1"]); ("Forwarded", ["for=127.0.0.9;host=h.example.com;proto=http"]);
-       ("X-User", ["alice"; "second"])] "{""a"":1}" /\
+       ("Cookie", ["c=1; sid=1"]); ("Forwarded", ["for=127.0.0.9;host=h.example.com;proto=https"]);
+       ("X-Role", [""]); ("X-User", ["alice"; "second"])] "{""a"":1}" /\
   spec_ok nv_req nv_pl nv_rule (serve repaired nv_req nv_pl nv_rule) = true.
 Proof. vm_compute. splits; reflexivity. Qed.
